@@ -22,7 +22,7 @@ from ref import geom, gravity as gr, hp
 ID = 'C04'
 LEVEL = 'model_checking'
 RULE = (
-    'full product of frame {lab, cube-rotated, generic-rotated} x (|b1|, unit) x unit of b2 x tilt alphabet '
+    'full product of frame {lab, cube-rotated, generic-rotated, lab turned by pi about y (beam along -z), lab turned by pi about x (gravity +y)} x (|b1|, unit) x unit of b2 x tilt alphabet '
     '(s = |b1| sin(tau) in {0, 1e-12, 0.9e-10, 1.1e-10, 1e-9, 1e-6, 1e-3} length units of b1 and tau in {0.3, 1} rad, both signs) '
     'x |g| x unit of g x L2; inside each case 14 detector directions x 6 wavelengths x 4 layouts x 2 dtypes x 2 functions; '
     'a configuration is non-trivial when the documented drop delta changes 2theta by more than 1e-9 rad '
@@ -42,8 +42,8 @@ ASSUMPTIONS = [
     'failure keeps the generic kind, so the two can be told apart; one violation per (site, kind) per case, worst offender kept',
 ]
 BOUND = {
-    'quick': '3 frames x {(1 m, b2 in mm), (10 mm, b2 in m)} x 17 tilts x |g| in {1e-30, 9.81, 100} x one L2 of {0.1, 5, 100} m each; 14 detectors x 6 wavelengths',
-    'thorough': '3 frames x |b1| {1, 10} x units {m, mm}^2 x 23 tilts (s in {0, 1e-12, 0.9e-10, 1.1e-10, 1e-9, 1e-8, 1e-6, 1e-4, 1e-3}, tau in '
+    'quick': '2 exact half turns of the lab frame (beam along -z; gravity -y / +y) x 17 tilts + 3 frames x {(1 m, b2 in mm), (10 mm, b2 in m)} x 17 tilts x |g| in {1e-30, 9.81, 100} x one L2 of {0.1, 5, 100} m each; 14 detectors x 6 wavelengths',
+    'thorough': '5 frames (lab, cube, generic, two half turns of the lab frame) x |b1| {1, 10} x units {m, mm}^2 x 23 tilts (s in {0, 1e-12, 0.9e-10, 1.1e-10, 1e-9, 1e-8, 1e-6, 1e-4, 1e-3}, tau in '
                 '{0.3, 1, 1.5} rad, both signs) x |g| {1e-30, 1e-11, 1, 9.81, 100} x {m/s^2, mm/s^2} x L2 {0.1, 5, 100} m; inside 20 detector '
                 'directions (incl. nearly forward / backward / sideways) x 9 wavelengths {0, 1e-3, 0.1, 1, 1.8, 6, 20, 50, 100} angstrom x 4 layouts x '
                 '{float64, float32} + int64 wavelengths (dense 1-d and binned)',
@@ -52,7 +52,7 @@ REQUIRED_CLASSES = [
     'generic_path', 'orthogonal_path', 'tilt_just_below_threshold', 'tilt_just_above_threshold',
     'correction_visible', 'correction_negligible', 'layout_scalar', 'layout_dense1d', 'layout_dense2d', 'layout_binned',
     'dtype_float64', 'dtype_float32', 'empty_bin', 'phi_ill_defined', 'phi_judged', 'yz_raises_ValueError', 'yz_value_judged',
-    'continuity_judged', 'limit_judged', 'above_horizontal_judged', 'frame_lab', 'frame_cube', 'frame_generic', 'mixed_incident_array',
+    'continuity_judged', 'limit_judged', 'above_horizontal_judged', 'frame_lab', 'frame_cube', 'frame_generic', 'frame_lab_reversed', 'frame_lab_upside_down', 'mixed_incident_array',
 ]
 
 SITE = 'conversion.beamline.scattering_angles_with_gravity'
@@ -79,6 +79,9 @@ S_TILTS_DEEP = (*S_TILTS, 1e-8, 1e-4)
 TAU_TILTS_DEEP = (*TAU_TILTS, 1.5)
 LEN_F = {'m': 1.0, 'mm': 1000.0}
 CUBE_FRAME = ((1, 1), (2, 1), (0, 1))  # (x, y, z) -> (y, z, x), exact
+# exact half turns of the lab frame (round 6): about y (gravity still -y, horizontal beam along -z) and about x (gravity +y, beam along -z)
+HALF_TURN_FRAMES = {3: ((0, -1), (1, 1), (2, -1)), 4: ((0, 1), (1, -1), (2, -1))}
+FRAME_CLS = ('frame_lab', 'frame_cube', 'frame_generic', 'frame_lab_reversed', 'frame_lab_upside_down')
 BASE_TOL = {'float64': 1e-12, 'float32': 2e-6, 'int64': 1e-12}
 EPS = {'float64': 2.0**-52, 'float32': 2.0**-23, 'int64': 2.0**-52}
 # below this fraction of L2 a length is lost to underflow of intermediate products (only reached with |g| = 1e-30)
@@ -127,6 +130,9 @@ def cases(tier):
                     for tilt in _tilts():
                         out.append({'kind': 'angles', 'frame': frame, 'L': L, 'u1': u1, 'u2': u2, 'tilt': tilt, 'g': g,
                                     'gu': 'm/s^2' if (gi + frame) % 2 == 0 else 'mm/s^2', 'L2': L2S[(frame + gi) % 3]})
+        for frame in (3, 4):
+            for tilt in _tilts():
+                out.append({'kind': 'angles', 'frame': frame, 'L': 1.0 if frame == 3 else 25.0, 'u1': 'm', 'u2': 'm', 'tilt': tilt, 'g': 9.81, 'gu': 'm/s^2', 'L2': 5.0})
         for frame in range(3):
             out.append({'kind': 'mixed', 'frame': frame, 'L': 1.0, 'u1': 'm', 'u2': 'm', 'g': 9.81, 'gu': 'm/s^2', 'L2': 5.0})
         for frame in range(3):
@@ -135,7 +141,7 @@ def cases(tier):
                     for layout in INCIDENT_LAYOUTS:
                         out.append({'kind': 'tiltmix', 'frame': frame, 'L': L, 'u1': u1, 'u2': 'm', 'g': 9.81, 'gu': 'm/s^2', 'L2': 5.0, 'pattern': pat, 'layout': layout})
         return out + _binrep_cases()
-    for frame in range(3):
+    for frame in range(5):
         for L in (1.0, 10.0):
             for u1 in ('m', 'mm'):
                 for u2 in ('m', 'mm'):
@@ -168,6 +174,8 @@ def _to_frame(frame, v):
         return [float(x) for x in v]
     if frame == 1:
         return [float(x) for x in geom.apply_cube(CUBE_FRAME, list(v))]
+    if frame in HALF_TURN_FRAMES:
+        return [float(x) + 0.0 for x in geom.apply_cube(HALF_TURN_FRAMES[frame], list(v))]  # + 0.0: no negative zeros
     return [float(x) for x in gc.GENERIC[0] @ np.asarray(v, dtype=float)]
 
 
@@ -334,7 +342,7 @@ def run_case(case, rec):
     if case['kind'] == 'binrep':
         return _run_binrep(case, rec)
     frame, L, u1, u2, L2 = case['frame'], case['L'], case['u1'], case['u2'], case['L2']
-    rec.cls(('frame_lab', 'frame_cube', 'frame_generic')[frame])
+    rec.cls(FRAME_CLS[frame])
     b1 = _to_frame(frame, _incident(L, case['tilt']))
     b1_flat = _to_frame(frame, (0.0, 0.0, L))
     gvec = _to_frame(frame, (0.0, -case['g'], 0.0))
@@ -476,7 +484,7 @@ def _check_units(rec, tt, ph):
 def _run_mixed(case, rec):
     """Per-detector incident beams with different tilts in one call (dispatch uses any())."""
     frame, L, u1, u2, L2 = case['frame'], case['L'], case['u1'], case['u2'], case['L2']
-    rec.cls(('frame_lab', 'frame_cube', 'frame_generic')[frame])
+    rec.cls(FRAME_CLS[frame])
     rec.cls('mixed_incident_array')
     tilts = [{'s': 0.0}, {'s': 1e-6}, {'s': -1e-3}, {'tau': 0.3}, {'s': 0.0}, {'s': 1e-12}, {'tau': -1.0}]
     b2s = [_to_frame(frame, [c * L2 * LEN_F[u2] for c in d]) for d in DETS]
@@ -586,7 +594,7 @@ def _br_events(var, idx):
 def _run_binrep(case, rec):
     """Binned wavelength in every storage representation; oracle: the dense call per pixel on that pixel's events."""
     frame, rep, cp = case['frame'], case['rep'], case['copy']
-    rec.cls(('frame_lab', 'frame_cube', 'frame_generic')[frame])
+    rec.cls(FRAME_CLS[frame])
     rec.cls('binrep_' + rep + ('_copy' if cp else ''))
     wl, b2v, index, parent = _br_build(rep, frame)
     if cp:
@@ -682,7 +690,7 @@ def _run_tiltmix(case, rec):
     frame, L, u1, u2, L2 = case['frame'], case['L'], case['u1'], case['u2'], case['L2']
     name, pattern = TILT_PATTERNS[case['pattern']]
     layout = case['layout']
-    rec.cls(('frame_lab', 'frame_cube', 'frame_generic')[frame])
+    rec.cls(FRAME_CLS[frame])
     rec.cls('tiltmix_layout_' + layout)
     dets, lams = list(TILTMIX_DETS), list(TILTMIX_LAMS)
     b2s = {k: _to_frame(frame, [c * L2 * LEN_F[u2] for c in DETS[k]]) for k in dets}
